@@ -68,7 +68,6 @@ func GetTimeFromTicks(intervalStart uint64, intervalsPerDay, intervalTicks uint3
 	const (
 		ticksPerIntervalDivSecsPerDay float64 = 49710.269629629629629629629629629
 		nanosecond                    float64 = 1000000000
-		subnanosecond                 float64 = 100000000
 	)
 
 	fractionalSeconds := float64(intervalTicks) / (float64(intervalsPerDay) * ticksPerIntervalDivSecsPerDay)
@@ -78,13 +77,13 @@ func GetTimeFromTicks(intervalStart uint64, intervalsPerDay, intervalTicks uint3
 		fractionalSeconds++
 	}
 
-	// in order to keep compatibility with the old rewriteBuffer implemented in C with some round error,
-	// fractionalSeconds should be rounded here.
-	sec = intervalStart + uint64(math.Round(fractionalSeconds*subnanosecond)/subnanosecond)
-	// round the subseconds after the decimal point to minimize the cancellation error of subseconds
-	// round( subseconds ) = (int32_t)(subseconds + 0.5)
-	const round = 0.5
-	nanosec = uint32(subseconds + round)
+	// Derive the seconds and the nanoseconds from one rounded nanosecond count so that the two always
+	// agree: rounding the seconds on their own carried a sub-second part >= 0.999999995 into the seconds
+	// while the nanosecond field kept it, returning the timestamp one second late.
+	totalNanos := math.Round((math.Floor(fractionalSeconds) * nanosecond) + subseconds)
+	wholeSeconds := math.Floor(totalNanos / nanosecond)
+	sec = intervalStart + uint64(wholeSeconds)
+	nanosec = uint32(totalNanos - wholeSeconds*nanosecond)
 
 	return sec, nanosec
 }
